@@ -75,8 +75,8 @@ TProbed ==
               ELSE /\ Verdict(cid, "ok", "-", <<Cardinality(DOMAIN vis), {Kind(vis[n]) : n \in DOMAIN vis}>>)
                    /\ ticks' = BatchTicks(vis, ticks, names, Len(names))
 TEnd == /\ IsEvent("End") /\ phase = "idle" /\ Step /\ phase' = "ended" /\ UNCHANGED <<inst, ticks, cur, cid, flag>>
-\* a process may die only of an import error it reported (program path); that case has been rejected above
-TExit == /\ IsEvent("Exit") /\ ((phase = "ended" /\ Ev.rc = 0) \/ (phase = "idle" /\ flag))
+\* a process may die only of the import error of its first import (program path); that case has been rejected above
+TExit == /\ IsEvent("Exit") /\ ((phase = "ended" /\ Ev.rc = 0) \/ (phase = "idle" /\ flag /\ seq = 3))
          /\ phase' = "off" /\ UNCHANGED <<inst, ticks, cur, cid, flag, seq>>
 
 TraceInit == /\ tab = ExpTab /\ req = Required
